@@ -3,7 +3,9 @@
 //! Requests (values are token-encoded, `s<hex utf-8>` for strings):
 //!   `c12.glob <pattern> <text>`  / `c12.spec.glob …`   whole-value matching        → `t` / `f`
 //!   `c12.word <pattern> <text>`  / `c12.spec.word …`   word-boundary matching      → `t` / `f`
-//!        (`e`: only `event_match` on `content.body` matched, `d`: only `contains_display_name`)
+//!        word mode is observed twice, as `event_match` on `content.body` (the text is a glob) and as
+//!        `contains_display_name` (the text is a literal display name): `t`/`f` both agree,
+//!        `e`: only the event match holds, `d`: only the display name is contained
 //!   `c12.xglob <pattern> <alphabet> <maxlen>` / `c12.xword …` / `c12.spec.x…`
 //!        one answer letter per text of length ≤ maxlen over the alphabet, in the canonical order
 //!        (shorter first, then first character most significant in alphabet order)
@@ -116,8 +118,9 @@ fn run_single(op: &str, p: &str, s: &str) -> Outcome {
         if r.0 != want {
             t3.push(format!("content.body: pattern {p:?} text {s:?}: implementation says {}, word-boundary glob matching says {want}", r.0));
         }
-        if r.1 != want {
-            t3.push(format!("display name {p:?} in body {s:?}: implementation says {}, word-boundary glob matching says {want}", r.1));
+        let want_dn = refm::ref_contains(p, s);
+        if r.1 != want_dn {
+            t3.push(format!("display name {p:?} in body {s:?}: contains_display_name says {}, but the body {} the name as literal text between word boundaries", r.1, if want_dn { "contains" } else { "does not contain" }));
         }
         word_letter(r)
     };
@@ -143,10 +146,11 @@ fn run_batch(op: &str, p: &str, alphabet: &str, maxlen: usize) -> Outcome {
         } else {
             let r = impl_word(p, &s);
             let want = refm::ref_word(p, &s);
-            if r.0 != want || r.1 != want {
+            let want_dn = refm::ref_contains(p, &s);
+            if r.0 != want || r.1 != want_dn {
                 bad += 1;
                 if t3.len() < 3 {
-                    t3.push(format!("word mode: pattern {p:?} text {s:?}: implementation says content.body={} display-name={}, word-boundary glob matching says {want}", r.0, r.1));
+                    t3.push(format!("word mode: pattern {p:?} text {s:?}: implementation says content.body={} display-name={}, word-boundary glob matching says {want}, literal containment says {want_dn}", r.0, r.1));
                 }
             }
             out.push(word_letter(r));
